@@ -128,28 +128,23 @@ class ASTListener(ModelicaListener):
         class_node.extends.append(extends_clause)
 
     def exitComposition(self, ctx: ModelicaParser.CompositionContext):
-        for clause in self.ast[ctx.epriv]:
-            if isinstance(clause, ast.ComponentClause):
-                for symbol in clause.symbol_list:
-                    symbol.visibility = ast.Visibility.PRIVATE
-            elif isinstance(clause, ast.ExtendsClause):
-                clause.visibility = ast.Visibility.PRIVATE
-
-        if ctx.epub is not None:
-            for clause in self.ast[ctx.epub]:
-                if isinstance(clause, ast.ComponentClause):
-                    for symbol in clause.symbol_list:
-                        symbol.visibility = ast.Visibility.PUBLIC
-                elif isinstance(clause, ast.ExtendsClause):
-                    clause.visibility = ast.Visibility.PUBLIC
-
-        if ctx.epro is not None:
-            for clause in self.ast[ctx.epro]:
-                if isinstance(clause, ast.ComponentClause):
-                    for symbol in clause.symbol_list:
-                        symbol.visibility = ast.Visibility.PROTECTED
-                elif isinstance(clause, ast.ExtendsClause):
-                    clause.visibility = ast.Visibility.PROTECTED
+        # A composition can contain any number of public and protected
+        # sections. Every element list gets the visibility of the keyword
+        # that precedes it; the leading (unlabelled) list keeps the default.
+        visibility = ast.Visibility.PRIVATE
+        for child in ctx.getChildren():
+            if isinstance(child, antlr4.tree.Tree.TerminalNode):
+                if child.getText() == "public":
+                    visibility = ast.Visibility.PUBLIC
+                elif child.getText() == "protected":
+                    visibility = ast.Visibility.PROTECTED
+            elif isinstance(child, ModelicaParser.Element_listContext):
+                for clause in self.ast[child]:
+                    if isinstance(clause, ast.ComponentClause):
+                        for symbol in clause.symbol_list:
+                            symbol.visibility = visibility
+                    elif isinstance(clause, ast.ExtendsClause):
+                        clause.visibility = visibility
 
         for eqlist in [self.ast[e] for e in ctx.equation_section()]:
             if eqlist is not None:
